@@ -2671,6 +2671,12 @@ PREFIX (_init_from_image) (region_type_t *region,
     height = pixman_image_get_height (image);
     stride = pixman_image_get_stride (image) / 4;
 
+    /* A bitmap without pixels has no first word to look at: the region
+     * stays as PREFIX (_init) made it, empty.
+     */
+    if (width <= 0 || height <= 0)
+	return;
+
     first_rect = PIXREGION_BOXPTR(region);
     rects = first_rect;
 
